@@ -346,133 +346,7 @@ func runC04(c *Ctx) {
 		c04Dispatch(c, dec)
 	}
 	// ---- R2 ----
-	if f := c.fn("netutil", "ipv6FromReversed"); f != nil {
-		arpa := f.Params[0]
-		n := int64(16)
-		// enumerate, for every counted loop, the positions of the name that
-		// are read and can lead to a rejection
-		covered := map[int64]string{}
-		var mainIV ssa.Value
-		undec := ""
-		for head := range core.LoopHeads(f) {
-			phi, vals, ok := countedLoop(head)
-			if !ok {
-				undec = "a loop of the scan is not a counted loop with constant bounds"
-				continue
-			}
-			body := core.LoopBody(head)
-			core.EachInstr(f, func(in ssa.Instruction) {
-				lk, lx, li, ok := strIndex(in)
-				if !ok || lx != ssa.Value(arpa) || !body[in.Block()] {
-					return
-				}
-				a, k, ok := affine(li, phi, 0)
-				if !ok {
-					undec = "a read of the name is not at an affine position of the loop counter"
-					return
-				}
-				kind := rejectKind(lk)
-				if kind == "" {
-					return
-				}
-				for _, v := range vals {
-					covered[a*v+k] = kind
-				}
-			})
-			if iv, _, cnt, ok := ivOf(head); ok && cnt == 16 {
-				mainIV = iv
-			}
-		}
-		iv := mainIV
-		ok := undec == "" && iv != nil
-		if !ok {
-			if undec == "" {
-				undec = "no 16-iteration loop over the address bytes"
-			}
-			c.undecided("C04.v6.every-byte-checked", f, "the 16-group scan", nil, undec+": positions cannot be enumerated")
-		} else {
-			var missing []int64
-			for p := int64(0); p < 4*n-1; p++ {
-				want := "hex"
-				if p%2 == 1 {
-					want = "dot"
-				}
-				if covered[p] != want {
-					missing = append(missing, p)
-				}
-			}
-			show := missing
-			if len(show) > 16 {
-				show = show[:16]
-			}
-			c.check(len(missing) == 0, "C04.v6.every-byte-checked", f, "every position 0..62 of the address part is read and can reject (even: hex digit, odd: '.')", nil,
-				sprintf("%d of 63 positions covered; unchecked positions: %v — a name with any other byte there is decoded as if it were canonical", 63-len(missing), show))
-			// any check hoisted out of the loop must still cover the positions: covered by the set above
-			maxLen, okL := intConst(c, "netutil", "arpaV6MaxLen")
-			c.check(okL && maxLen == 4*n-1+int64(len(".ip6.arpa")), "C04.v6.every-byte-checked", f, "arpaV6MaxLen == 4*16-1+len(\".ip6.arpa\")", nil, sprintf("constant is %d", maxLen))
-			// callers guard the exact length
-			ncall := 0
-			for _, g := range c.P.Funcs("netutil") {
-				for _, ci := range core.AllCalls(g) {
-					if ci.Common().StaticCallee() != f {
-						continue
-					}
-					ncall++
-					okLen := false
-					for _, gd := range core.GuardsOf(ci) {
-						cond, truth := core.StripNot(gd.Cond, gd.Truth)
-						if b, ok := cond.(*ssa.BinOp); ok && b.Op == token.EQL && truth {
-							if k, isK := core.ConstInt(b.Y); isK && okL && k == maxLen {
-								if lc, ok := b.X.(*ssa.Call); ok && core.CalleeName(&lc.Call) == "builtin.len" && lc.Call.Args[0] == ci.Common().Args[0] {
-									okLen = true
-								}
-							}
-						}
-					}
-					c.check(okLen, "C04.v6.every-byte-checked", g, "ipv6FromReversed(x) only under len(x) == arpaV6MaxLen", ci, "a shorter name would be indexed out of range, a longer one would have unchecked bytes")
-				}
-			}
-			if ncall == 0 {
-				c.undecided("C04.v6.every-byte-checked", f, "callers", nil, "no caller found")
-			}
-			// R4 decoder side: ip[15-i] = hi<<4 | lo with lo from offset 0, hi from offset 2
-			okDec := false
-			core.EachInstr(f, func(in ssa.Instruction) {
-				st, ok := in.(*ssa.Store)
-				if !ok {
-					return
-				}
-				ia, ok := st.Addr.(*ssa.IndexAddr)
-				if !ok {
-					return
-				}
-				a, k, ok := affine(ia.Index, iv, 0)
-				if !ok || a != -1 || k != 15 {
-					return
-				}
-				or, ok := st.Val.(*ssa.BinOp)
-				if !ok || or.Op != token.OR {
-					return
-				}
-				hi, lo := or.X, or.Y
-				shl, ok := hi.(*ssa.BinOp)
-				if !ok || shl.Op != token.SHL {
-					hi, lo = or.Y, or.X
-					shl, ok = hi.(*ssa.BinOp)
-				}
-				if !ok || shl.Op != token.SHL {
-					return
-				}
-				if k4, isK := core.ConstInt(shl.Y); !isK || k4 != 4 {
-					return
-				}
-				if nibbleOffset(shl.X, arpa, iv) == 2 && nibbleOffset(lo, arpa, iv) == 0 {
-					okDec = true
-				}
-			})
-			c.check(okDec, "C04.codec-tables", f, "decoder: byte[15-i] = hex(name[4i+2])<<4 | hex(name[4i+0])", nil, "offset 0 is the low nibble, offset 2 the high nibble, groups run from the last byte to the first")
-		}
-	}
+	arpaV6FullScan(c, "C04", 63)
 	// ---- R3 ----
 	if f := c.fn("netutil", "ipv4FromReversed"); f != nil {
 		var pa *ssa.Call
@@ -487,11 +361,14 @@ func runC04(c *Ctx) {
 			for _, g := range core.GuardsOf(ret) {
 				cond, truth := core.StripNot(g.Cond, g.Truth)
 				if call, ok := cond.(*ssa.Call); ok && core.CalleeName(&call.Call) == "(net/netip.Addr).Is4" && truth {
-					okIs4 = true
+					// of the parsed address itself: Unmap() first would let "::ffff:4.3.2.1" through
+					if ex, isEx := call.Call.Args[0].(*ssa.Extract); isEx && pa != nil && ex.Tuple == ssa.Value(pa) && ex.Index == 0 {
+						okIs4 = true
+					}
 				}
 			}
 		}
-		c.check(pa != nil && pa.Call.Args[0] == ssa.Value(f.Params[0]) && okIs4, "C04.v4.parse", f, "IPv4 part parsed by netip.ParseAddr and accepted only if Is4()", pa,
+		c.check(pa != nil && pa.Call.Args[0] == ssa.Value(f.Params[0]) && okIs4, "C04.v4.parse", f, "IPv4 part parsed by netip.ParseAddr and accepted only if that result Is4()", pa,
 			"an IPv6 literal in front of in-addr.arpa must be rejected")
 		c.L.Floor("C04.v4.exits", 2)
 		c04V4Exits(c, f, pa)
@@ -591,6 +468,48 @@ func runC04(c *Ctx) {
 			}
 		}
 		c.check(okLoop, "C04.codec-tables", f, "encoder walks the address bytes from the last to the first", nil, "the decoder stores group i into byte 15-i (resp. reverses the four octets)")
+		// what is walked is the family-normalised form: To4() for IPv4 (also
+		// for the 16-byte ::ffff:a.b.c.d form), To16() otherwise
+		nidx := 0
+		core.EachInstr(f, func(in ssa.Instruction) {
+			ia, ok := in.(*ssa.IndexAddr)
+			if !ok || !core.InLoop(ia) {
+				return
+			}
+			if _, isSlice := ia.X.Type().Underlying().(*types.Slice); !isSlice {
+				return
+			}
+			nidx++
+			okSrc := false
+			var edges []ssa.Value
+			if phi, isPhi := ia.X.(*ssa.Phi); isPhi {
+				edges = phi.Edges
+			} else {
+				edges = []ssa.Value{ia.X}
+			}
+			okSrc = len(edges) > 0
+			fams := map[string]bool{}
+			for _, e := range edges {
+				call, isC := e.(*ssa.Call)
+				if !isC || len(call.Call.Args) != 1 || call.Call.Args[0] != ssa.Value(f.Params[0]) {
+					okSrc = false
+					continue
+				}
+				switch core.CalleeName(&call.Call) {
+				case "(net.IP).To4":
+					fams["4"] = true
+				case "(net.IP).To16":
+					fams["16"] = true
+				default:
+					okSrc = false
+				}
+			}
+			c.check(okSrc && fams["4"] && fams["16"], "C04.codec-tables", f, "encoder reads the bytes of ip.To4() / ip.To16(), not of the raw argument", ia,
+				"a 16-byte IPv4-mapped net.IP (what net.ParseIP returns) must be encoded from its last four bytes")
+		})
+		if nidx == 0 {
+			c.undecided("C04.codec-tables", f, "byte reads of the encoder loop", nil, "no indexed read of a byte slice inside the loop")
+		}
 		// suffix constants shared
 		nsuf := 0
 		core.EachInstr(f, func(in ssa.Instruction) {
@@ -601,6 +520,141 @@ func runC04(c *Ctx) {
 			}
 		})
 		c.check(nsuf == 2, "C04.codec-tables", f, "encoder appends the same suffix constants the decoder tests", nil, sprintf("%d uses of arpaV4Suffix/arpaV6Suffix", nsuf))
+	}
+}
+
+// arpaV6FullScan: the fixed-position decoder of a full 32-nibble name reads
+// every one of the first npos bytes and can reject on each (C04: 63 — the
+// dispatcher's suffix test covers the dot at 63; C05: 64 — its dispatcher
+// tests the suffix without the dot and relies on position 63 being checked
+// here).
+func arpaV6FullScan(c *Ctx, prop string, npos int64) {
+	if f := c.fn("netutil", "ipv6FromReversed"); f != nil {
+		arpa := f.Params[0]
+		n := int64(16)
+		// enumerate, for every counted loop, the positions of the name that
+		// are read and can lead to a rejection
+		covered := map[int64]string{}
+		var mainIV ssa.Value
+		undec := ""
+		for head := range core.LoopHeads(f) {
+			phi, vals, ok := countedLoop(head)
+			if !ok {
+				undec = "a loop of the scan is not a counted loop with constant bounds"
+				continue
+			}
+			body := core.LoopBody(head)
+			core.EachInstr(f, func(in ssa.Instruction) {
+				lk, lx, li, ok := strIndex(in)
+				if !ok || lx != ssa.Value(arpa) || !body[in.Block()] {
+					return
+				}
+				a, k, ok := affine(li, phi, 0)
+				if !ok {
+					undec = "a read of the name is not at an affine position of the loop counter"
+					return
+				}
+				kind := rejectKind(lk)
+				if kind == "" {
+					return
+				}
+				for _, v := range vals {
+					covered[a*v+k] = kind
+				}
+			})
+			if iv, _, cnt, ok := ivOf(head); ok && cnt == 16 {
+				mainIV = iv
+			}
+		}
+		iv := mainIV
+		ok := undec == "" && iv != nil
+		if !ok {
+			if undec == "" {
+				undec = "no 16-iteration loop over the address bytes"
+			}
+			c.undecided(prop+".v6.every-byte-checked", f, "the 16-group scan", nil, undec+": positions cannot be enumerated")
+		} else {
+			var missing []int64
+			for p := int64(0); p < npos; p++ {
+				want := "hex"
+				if p%2 == 1 {
+					want = "dot"
+				}
+				if covered[p] != want {
+					missing = append(missing, p)
+				}
+			}
+			show := missing
+			if len(show) > 16 {
+				show = show[:16]
+			}
+			c.check(len(missing) == 0, prop+".v6.every-byte-checked", f, sprintf("every position 0..%d of the name is read and can reject (even: hex digit, odd: '.')", npos-1), nil,
+				sprintf("%d of %d positions covered; unchecked positions: %v — a name with any other byte there is decoded as if it were canonical", npos-int64(len(missing)), npos, show))
+			// any check hoisted out of the loop must still cover the positions: covered by the set above
+			maxLen, okL := intConst(c, "netutil", "arpaV6MaxLen")
+			c.check(okL && maxLen == 4*n-1+int64(len(".ip6.arpa")), prop+".v6.every-byte-checked", f, "arpaV6MaxLen == 4*16-1+len(\".ip6.arpa\")", nil, sprintf("constant is %d", maxLen))
+			// callers guard the exact length
+			ncall := 0
+			for _, g := range c.P.Funcs("netutil") {
+				for _, ci := range core.AllCalls(g) {
+					if ci.Common().StaticCallee() != f {
+						continue
+					}
+					ncall++
+					okLen := false
+					for _, gd := range core.GuardsOf(ci) {
+						cond, truth := core.StripNot(gd.Cond, gd.Truth)
+						if b, ok := cond.(*ssa.BinOp); ok && b.Op == token.EQL && truth {
+							if k, isK := core.ConstInt(b.Y); isK && okL && k == maxLen {
+								if lc, ok := b.X.(*ssa.Call); ok && core.CalleeName(&lc.Call) == "builtin.len" && lc.Call.Args[0] == ci.Common().Args[0] {
+									okLen = true
+								}
+							}
+						}
+					}
+					c.check(okLen, prop+".v6.every-byte-checked", g, "ipv6FromReversed(x) only under len(x) == arpaV6MaxLen", ci, "a shorter name would be indexed out of range, a longer one would have unchecked bytes")
+				}
+			}
+			if ncall == 0 {
+				c.undecided(prop+".v6.every-byte-checked", f, "callers", nil, "no caller found")
+			}
+			// R4 decoder side: ip[15-i] = hi<<4 | lo with lo from offset 0, hi from offset 2
+			okDec := false
+			core.EachInstr(f, func(in ssa.Instruction) {
+				st, ok := in.(*ssa.Store)
+				if !ok {
+					return
+				}
+				ia, ok := st.Addr.(*ssa.IndexAddr)
+				if !ok {
+					return
+				}
+				a, k, ok := affine(ia.Index, iv, 0)
+				if !ok || a != -1 || k != 15 {
+					return
+				}
+				or, ok := st.Val.(*ssa.BinOp)
+				if !ok || or.Op != token.OR {
+					return
+				}
+				hi, lo := or.X, or.Y
+				shl, ok := hi.(*ssa.BinOp)
+				if !ok || shl.Op != token.SHL {
+					hi, lo = or.Y, or.X
+					shl, ok = hi.(*ssa.BinOp)
+				}
+				if !ok || shl.Op != token.SHL {
+					return
+				}
+				if k4, isK := core.ConstInt(shl.Y); !isK || k4 != 4 {
+					return
+				}
+				if nibbleOffset(shl.X, arpa, iv) == 2 && nibbleOffset(lo, arpa, iv) == 0 {
+					okDec = true
+				}
+			})
+			c.check(okDec, prop+".codec-tables", f, "decoder: byte[15-i] = hex(name[4i+2])<<4 | hex(name[4i+0])", nil, "offset 0 is the low nibble, offset 2 the high nibble, groups run from the last byte to the first")
+		}
 	}
 }
 
@@ -981,6 +1035,9 @@ func runC05(c *Ctx) {
 		c05Skeleton(c, v6, 4, true)
 		c05NibbleStart(c, v6)
 	}
+	// k == 32: PrefixFromReversedAddr hands a full-length name to the address decoder
+	c.L.Floor("C05.v6.every-byte-checked", 3)
+	arpaV6FullScan(c, "C05", 64)
 	// ---- caller-side bounds ----
 	if f := c.fn("netutil", "subnetFromReversedV4"); f != nil && v4 != nil {
 		for _, ci := range core.AllCalls(f) {
